@@ -135,6 +135,108 @@ theorem C19_wide_file_order (tw : Bool) (lg : Nat) (hlg : LG lg) (d : List UInt8
   · intro h
     rw [fileBytes_eq, fileB_short tw lg d h]
 
+/-! ## `WriteBytes` → `MakeList`: the listed buffer is the stored buffer, for statements of every size
+
+`as.c` calls `WriteCode()` (→ `asmcode.c WriteBytes`) and then `MakeList()` on the same line buffer.  `WriteBytes` has
+three ways of storing a statement – append to `CodeBuffer`, flush and start the buffer anew, flush and write through when
+the statement alone has `CodeBufferSize` = 512 bytes or more – and turns the buffer to file order before and back
+afterwards (`writeBytesLine`, Model/Listing.lean). -/
+
+/-- **`MakeList` finds the line buffer as the code generator left it**, whichever of the three ways `WriteBytes` took
+(statement smaller than the room left in the buffer, smaller than the buffer, as large as the buffer or larger),
+for every `TurnWords`, `ActListGran` and buffer fill -/
+theorem C19_wide_buffer_restored (tw : Bool) (lg : Nat) (s : Store) (code : List UInt8) :
+    (writeBytesLine tw lg s code).2 = code := by
+  rw [writeBytesLine_eq]
+
+/-- **what `WriteBytes` adds to the open record** (file + buffer, in this order) is `fileBytes` of the statement, in all
+three cases -/
+theorem C19_wide_stored (tw : Bool) (lg : Nat) (s : Store) (code : List UInt8) :
+    (writeBytesLine tw lg s code).1.disk ++ (writeBytesLine tw lg s code).1.buf
+      = (s.disk ++ s.buf) ++ fileBytes tw lg code := by
+  rw [writeBytesLine_eq, fileBytes_eq]
+  simp only []
+  by_cases h0 : code.length = 0
+  · have : code = [] := List.length_eq_zero_iff.mp h0
+    subst this
+    simp [fileB_nil]
+  · simp only [h0, if_false]
+    split
+    · simp
+    · split <;> simp
+
+/-- a statement of at least `CodeBufferSize` bytes takes the write-through way: everything is on disk afterwards, the
+buffer is empty (the case the short data lines of a test suite never reach) -/
+theorem C19_wide_write_through (tw : Bool) (lg : Nat) (s : Store) (code : List UInt8) (h : codeBufferSize ≤ code.length) :
+    (writeBytesLine tw lg s code).1 = ⟨s.disk ++ s.buf ++ fileBytes tw lg code, []⟩ := by
+  rw [writeBytesLine_eq, fileBytes_eq]
+  have h0 : code.length ≠ 0 := by unfold codeBufferSize at h; omega
+  have h1 : ¬ s.buf.length + code.length < codeBufferSize := by omega
+  have h2 : ¬ code.length < codeBufferSize := by omega
+  simp only [h0, h1, h2, if_false]
+
+/-- … and a statement that does not fit behind the buffered bytes but is smaller than the buffer flushes first -/
+theorem C19_wide_flush_then_buffer (tw : Bool) (lg : Nat) (s : Store) (code : List UInt8) (h0 : code.length ≠ 0)
+    (h1 : codeBufferSize ≤ s.buf.length + code.length) (h2 : code.length < codeBufferSize) :
+    (writeBytesLine tw lg s code).1 = ⟨s.disk ++ s.buf, fileBytes tw lg code⟩ := by
+  rw [writeBytesLine_eq, fileBytes_eq]
+  have h1' : ¬ s.buf.length + code.length < codeBufferSize := by omega
+  simp only [h0, h1', h2, if_false, if_true]
+
+/-- the three ways are really taken: 600 bytes behind 100 buffered ones, 300 behind 300, 10 behind 100 -/
+example : codeBufferSize ≤ (List.replicate 600 (1 : UInt8)).length ∧
+    (300 + (List.replicate 300 (1 : UInt8)).length ≥ codeBufferSize ∧ (List.replicate 300 (1 : UInt8)).length < codeBufferSize) ∧
+    100 + (List.replicate 10 (1 : UInt8)).length < codeBufferSize := by
+  simp only [List.length_replicate, codeBufferSize]
+  omega
+
+/-- **a whole sequence of statements**: every line buffer reaches `MakeList` unchanged, and the record holds the
+statements' file-order bytes one after the other -/
+theorem C19_wide_sequence (tw : Bool) (lg : Nat) : ∀ (codes : List (List UInt8)) (s : Store),
+    (writeBytesSeq tw lg s codes).2 = codes ∧
+    (writeBytesSeq tw lg s codes).1.disk ++ (writeBytesSeq tw lg s codes).1.buf
+      = (s.disk ++ s.buf) ++ (codes.map (fileBytes tw lg)).flatten := by
+  intro codes
+  induction codes with
+  | nil => intro s; simp [writeBytesSeq]
+  | cons c cs ih =>
+    intro s
+    obtain ⟨ih1, ih2⟩ := ih (writeBytesLine tw lg s c).1
+    refine ⟨?_, ?_⟩
+    · simp only [writeBytesSeq, ih1, C19_wide_buffer_restored]
+    · simp only [writeBytesSeq, ih2, C19_wide_stored, List.map_cons, List.flatten_cons, List.append_assoc]
+
+/-- **Listing of a statement = what the code file received for it** (`WriteBytes` followed by `MakeList`, any statement
+size, any buffer fill): the record grows by `bs`, and the documented reading of the lines `MakeList` prints from the
+buffer `WriteBytes` left behind is (start address, `bs`).  Hypotheses as in `C19_wide_roundtrip`. -/
+theorem C19_wide_statement (r : Nat) (h2 : 2 ≤ r) (h36 : r ≤ 36) (i : ListInW) (s : Store)
+    (hlg : LG i.listGran) (hg : i.gran = 1 ∨ i.gran = i.listGran) (hlen : i.code.length % i.gran = 0)
+    (hw : i.widthRadix = r) (hn : i.numRadix = r) (hdp : i.dontPrint = false)
+    (hsrc : unitW r i.listGran + 1 < LISTLINESPACE ∨ TailW r i.src) :
+    ∃ bs : List UInt8,
+      (writeBytesLine i.turnWords i.listGran s i.code).1.disk ++ (writeBytesLine i.turnWords i.listGran s i.code).1.buf
+        = (s.disk ++ s.buf) ++ bs ∧
+      parseListingW r i.gran i.turnWords (makeListW { i with code := (writeBytesLine i.turnWords i.listGran s i.code).2 })
+        = some (i.listPC, bs.map (fun b => b.toNat)) := by
+  refine ⟨fileBytes i.turnWords i.listGran i.code, C19_wide_stored _ _ _ _, ?_⟩
+  rw [C19_wide_buffer_restored]
+  have e : ({ i with code := i.code } : ListInW) = i := by cases i; rfl
+  rw [e]
+  exact C19_wide_roundtrip r h2 h36 i hlg hg hlen hw hn hdp hsrc
+
+/-- the hypotheses are satisfiable with a statement that is written through: 68000, any buffer of 512 bytes or more
+(such buffers exist: `List.replicate 516 0x4d`) -/
+example (code : List UInt8) (h : codeBufferSize ≤ code.length) :
+    let i : ListInW := { incDepth := 0, currLine := 8, listPC := 0x2000, gran := 1, listGran := 2, turnWords := true,
+                         code := code, src := "\tdc.b [516]$4d".toList }
+    LG i.listGran ∧ (i.gran = 1 ∨ i.gran = i.listGran) ∧ i.code.length % i.gran = 0 ∧ codeBufferSize ≤ i.code.length ∧
+      (unitW 16 i.listGran + 1 < LISTLINESPACE) :=
+  ⟨Or.inr (Or.inl rfl), Or.inl rfl, Nat.mod_one _, h, (by decide : unitW 16 2 + 1 < LISTLINESPACE)⟩
+
+example : codeBufferSize ≤ (List.replicate 516 (0x4d : UInt8)).length := by
+  simp only [List.length_replicate, codeBufferSize]
+  omega
+
 /-! ## non-vacuity: concrete lines of the four kinds of target -/
 
 /-- (g, lg) = (1, 2), `TurnWords` [68000]: 13 bytes at $1017 – two lines, the second one ends with a
